@@ -13,6 +13,16 @@ type Gate struct {
 	Cond   ast.Expr
 	OnTrue bool // target reachable only via the true branch
 	Block  *cfg.Block
+	Tag    ast.Expr // non-nil when Cond is a case expression of a tagged switch
+}
+
+// Full returns the condition in full: for a tagged-switch case `tag == expr`
+// (so `switch x.Cmp(y) { case 0: }` reads like `if x.Cmp(y) == 0`), else Cond.
+func (g Gate) Full() ast.Expr {
+	if g.Tag != nil {
+		return &ast.BinaryExpr{X: g.Tag, OpPos: g.Cond.Pos(), Op: token.EQL, Y: g.Cond}
+	}
+	return g.Cond
 }
 
 // Gates returns every conditional block that dominates the target and of which
@@ -20,11 +30,8 @@ type Gate struct {
 func (g *Graph) Gates(target *Site) []Gate {
 	var out []Gate
 	for _, c := range g.CFG.Blocks {
-		if !c.Live || len(c.Succs) != 2 || len(c.Nodes) == 0 {
-			continue
-		}
-		cond, ok := c.Nodes[len(c.Nodes)-1].(ast.Expr)
-		if !ok {
+		cond := g.CondOf(c)
+		if cond == nil {
 			continue
 		}
 		if c == target.Block || !g.BlockDominates(c, target.Block) {
@@ -34,7 +41,7 @@ func (g *Graph) Gates(target *Site) []Gate {
 		t := c.Succs[0] == target.Block || g.Reach(c.Succs[0], target.Block, avoid)
 		f := c.Succs[1] == target.Block || g.Reach(c.Succs[1], target.Block, avoid)
 		if t != f {
-			out = append(out, Gate{Cond: cond, OnTrue: t, Block: c})
+			out = append(out, Gate{Cond: cond, OnTrue: t, Block: c, Tag: g.TagOf(cond)})
 		}
 	}
 	return out
